@@ -16,7 +16,11 @@ pub fn run(sh: &mut Shell, cl: &CommandLine, cmd: &Command,
         return cr;
     }
 
+    // the file runs in the current shell: a `set -e` that is in effect stays
+    // in effect afterwards (run_script switches it off when a script ends).
+    let exit_on_error = sh.exit_on_error;
     let status = scripting::run_script(sh, &args);
+    sh.exit_on_error = exit_on_error;
     cr.status = status;
     cr
 }
